@@ -93,7 +93,15 @@ pub fn payload_strategy(t: &Arc<Table>, f: &Field, cfg: GenCfg, depth: u32) -> B
                 _ => 20,
             };
             let dmax = if bytes >= 10 { u64::MAX as u128 } else { pow10(2 * bytes as u32) - 1 };
-            int_strategy(tmax.min(dmax) as u64).prop_map(Val::U).boxed()
+            let lim = tmax.min(dmax) as u64;
+            // values whose BCD image starts like a tag + length of a neighbouring field (06 00 = an empty TLV container,
+            // 22 f0.., 27 00, 49 09 ..): a decoder must take them as the number they are
+            let width = bytes.min(9) as u32;
+            let tag_like = (proptest::sample::select(vec![6u64, 22, 27, 29, 49, 60, 87, 4, 19]), prop_oneof![Just(0u64), Just(1), 0u64..100]).prop_map(move |(tag, low)| {
+                let v = tag as u128 * pow10(2 * width.saturating_sub(1)) + low as u128;
+                v.min(lim as u128) as u64
+            });
+            prop_oneof![9 => int_strategy(lim), 1 => tag_like].prop_map(Val::U).boxed()
         }
         Enc::ReceiptNo => prop_oneof![1 => Just(0xffffu64), 1 => Just(0u64), 1 => Just(9999u64), 3 => 0u64..=9999].prop_map(Val::U).boxed(),
         Enc::Hex => {
